@@ -14,6 +14,9 @@
              'converts again (fresh values); copy results handed to a mutating javascript custom_func, record '
              'after record; pairs/triples of XML readers interleaved on one goroutine must return what each '
              'returns alone (xml_readers_independent is the model side)',
+             'documents after a FAILED document (good, good2, bad, good, good2 with the ingester\'s Read/Release '
+             'protocol, targets . / /* /*/*, JSON and XML) must give the records they gave before it; the run '
+             'ends at the first such failure because the process-wide node pool is then damaged',
              'the partially built idr.Node tree is modelled as the stack of open nodes (append-only '
              'construction; justified by the C12 refinement to the abstract tree)'],
  'assumptions': ['jwf: object keys pairwise distinct at every level (duplicate keys are folded into an array '
